@@ -227,8 +227,10 @@ def task_section(pr, repo, wstep, wstart):
             ctx.oblige('WF: section is built from formatted rows', False)
             return
         fm = s.fmt_parts()
-        rowparts = [p for p in fm if p[1] == '{0:>6.2f}{1:>10.2f}\n']
-        tail = [p for p in fm if p[1] != '{0:>6.2f}{1:>10.2f}\n']
+        dgs = [d for _, d in rows]
+        is_row = lambda p: len(FmtStr.values_of(p)) == 2 and any(FmtStr.values_of(p)[1] is d for d in dgs)     # noqa
+        rowparts = [p for p in fm if is_row(p)]
+        tail = [p for p in fm if not is_row(p)]
         # specification of the filter (from the property): inside the window and within 0.05 of start + k*step
         stop_r = ex.call(BUILTINS_round, [w1, 2])
         conj = []
@@ -248,7 +250,7 @@ def task_section(pr, repo, wstep, wstart):
             may = And(pr3 >= wstart, pr3 <= hi_b, near)
             expected.append((must, may, pr3, d))
         # which rows were printed on this path
-        printed = [(p[2][0], p[2][1]) for p in rowparts]
+        printed = [tuple(FmtStr.values_of(p)) for p in rowparts]
         want = [e for e in expected]
         # the printed sequence must be the subsequence of rows satisfying the spec
         idx = 0
@@ -262,7 +264,7 @@ def task_section(pr, repo, wstep, wstart):
                 seq_ok.append(Not(must))
         ctx.oblige('WF[step %s, start %s]: printed rows == profile rows inside the window and within 0.05 of window[0] + k*window[2], '
                    'in order, each with its own dG' % (wstep, wstart), And(len(remaining) == 0, *seq_ok))
-        flat = [x for p in tail for x in p[2]]
+        flat = [x for p in tail for x in FmtStr.values_of(p)]
         want_tail = [vals['opt'][0], vals['opt'][1], vals['r80'][0], vals['r80'][1], vals['stab'][0], vals['stab'][1]]
         ctx.oblige('WF: optimum, 80 %% range and stability range lines print the values returned by get_folding_profile, in that order',
                    len(flat) == len(want_tail) and all((x is y) or (isinstance(x, str) and x == y) for x, y in zip(flat, want_tail)))
